@@ -116,7 +116,7 @@ class Backend:
             cudd={'ite', 'quantify', 'let', 'cube', 'cube-signs',
                   'support', 'count', 'pick', 'to_expr', 'traverse',
                   'copy', 'incref', 'reorder', 'add_expr', 'fmethods',
-                  'implies-equiv', 'rejected'},
+                  'implies-equiv', 'rejected', 'json'},
             sylvan={'ite', 'quantify', 'let', 'cube', 'cube-signs',
                     'support', 'pick', 'traverse', 'add_expr',
                     'sylvan-module', 'rejected'},
@@ -486,7 +486,21 @@ class Hist:
                 lambda s: s.bdd.let({'nope': True}, s.pool[i][0]),
                 lambda s: s.bdd.quantify(s.pool[i][0], ['nope']),
                 lambda s: s.bdd.count(s.pool[i][0], 0) if dep else
-                s.bdd.var('nope')):
+                s.bdd.var('nope'),
+                # refused part-way: the first item is fine, a later
+                # one is not (temporaries taken so far must be released)
+                lambda s: s.bdd.let({'a': s.pool[i][0],
+                                     'nope': s.pool[i][0]}, s.pool[i][0]),
+                lambda s: s.bdd.let({'a': s.pool[i][0], 'b': True},
+                                    s.pool[i][0]),
+                lambda s: s.bdd.let({'a': 'b', 'nope': 'a'}, s.pool[i][0]),
+                lambda s: s.bdd.let({'a': True, 'nope': False},
+                                    s.pool[i][0]),
+                lambda s: s.bdd.cube({'a': True, 'nope': True}),
+                lambda s: s.bdd.quantify(s.pool[i][0], ['a', 'nope']),
+                lambda s: s.bdd.apply('and', s.pool[i][0]),
+                lambda s: s.bdd.apply('ite', s.pool[i][0], s.pool[i][0]),
+                lambda s: s.bdd.ite(s.pool[i][0], s.pool[i][0], None)):
             try:
                 bad(self)
             except Exception:
@@ -662,10 +676,38 @@ class Hist:
         elif k == 19 and 'incref' in feat:
             e = self.pick()
             bdd.incref(e[0])
-            if rng.random() < 0.7:
+            r = rng.random()
+            if r < 0.4:
                 bdd.decref(e[0], recursive=rng.random() < 0.5)
+            elif r < 0.7:
+                # the documented escape hatch used by dd._copy: release
+                # one library reference, leave the handle's own count
+                bdd.decref(e[0], recursive=rng.random() < 0.5,
+                           _direct=True)
+                e[0]._ref -= 1
             e = None
             site = 'incref-decref'
+        elif k == 24 and 'json' in feat:
+            # (constant roots: dd._copy writes the pointer-based id of a
+            # dd.cudd constant into `roots` without a node line, and the
+            # load fails - a dump/load matter outside this property)
+            es = [e for e in (self.pick() for _ in range(rng.randint(1, 3)))
+                  if 0 < e[1] < sp.full]
+            fn = f'c19_{os.getpid()}.json'
+            if not es:
+                fn = None
+            back = []
+            try:
+                if fn:
+                    bdd.dump(fn, [e[0] for e in es])
+                    back = bdd.load(fn)
+            finally:
+                if fn and os.path.exists(fn):
+                    os.remove(fn)
+            for e, f in zip(es, back):
+                self.hold(f, e[1], 'load-json')
+            es = back = e = f = None
+            site = 'json'
         elif k == 20 and 'rejected' in feat:
             # rejected calls must not leak temporaries; they run in
             # their own frames, which are dead (and can be cleared) when
